@@ -111,6 +111,35 @@ def explore(ck: Check, n_tables: int, xlsx_every: int) -> None:
                     if by_name != base_by_name:
                         ck.fail("permutation", f"values obtained by name change when the columns are permuted by {sigma}", {"table": t, "sigma": sigma})
                         break
+            # ---- oracle 2b: ONE loader object handed to two sheets whose headings differ (columns permuted, the last one dropped):
+            # the second sheet's schema is ITS heading, in its order; values() and values by name are its cells
+            if fmt == "csv" and kind == "full" and len(t) > 1 and len(t[0]) >= 2 and i % 3 == 1:
+                ck.oracle_evaluations += 1
+                sigma2 = list(range(len(t[0])))
+                rng.shuffle(sigma2)
+                sigma2 = sigma2[:-1] if len(sigma2) > 2 else sigma2
+                t2 = [[r[j] for j in sigma2] for r in t]
+                p2 = tdp / f"q{i}.csv"
+                write_csv(p2, t2)
+                try:
+                    loader = HeadingRowSchemaLoader()
+                    seen = []
+                    for pth in (path, p2):
+                        with CSV_Workbook(pth) as wb_:
+                            sh_ = wb_.sheet("")
+                            sh_.set_schema_loader(loader)
+                            body_ = [([cell_text(v) for v in row.values()], {h: cell_text(row.name(h).value()) for h in (t[0] if pth is path else t2[0])})
+                                     for row in sh_.rows()]
+                            seen.append((list(sh_.schema.properties), body_))    # type: ignore[union-attr]
+                    names2, body2 = seen[1]
+                    if names2 != t2[0]:
+                        ck.fail("loader-reuse", f"one loader object used for two sheets: the second sheet's schema lists {names2}, its heading is {t2[0]}",
+                                {"first": t, "second": t2})
+                    elif [b[0] for b in body2] != t2[1:] or [b[1] for b in body2] != [dict(zip(t2[0], r)) for r in t2[1:]]:
+                        ck.fail("loader-reuse", "one loader object used for two sheets: the second sheet's values() / values by name are not its cells "
+                                                "in its heading's order", {"first": t, "second": t2})
+                except BaseException as ex:  # noqa: BLE001
+                    ck.fail("loader-reuse", f"one loader object used for two sheets raises {type(ex).__name__}: {str(ex)[:80]}", {"first": t, "second": t2})
             # ---- oracle 3: histories of one Sheet object: a second pass (the caller rewinds its file object) skips the heading row
             # again and uses the NEW header; a schema bound before the heading-row loader does not survive it
             if fmt == "csv" and kind == "full" and len(t) > 1 and i % 3 == 0:
